@@ -8,6 +8,10 @@ use vcore::Acc;
 
 /// Strings that are prefixes / suffixes / concatenations of each other inside the shared buffer.
 pub const STRS: [&str; 6] = ["", "a", "b", "ab", "ba", "aa"];
+/// Second set: 2-, 3- and 4-byte characters (byte length != char count), strings that share leading
+/// bytes ("é" = C3 A9, "ê" = C3 AA), and multi-byte strings that are prefix / suffix of each other.
+pub const STRS_MB: [&str; 6] = ["é", "ê", "€", "𝄞", "éé", "a€"];
+pub const SETS: [&[&str; 6]; 2] = [&STRS, &STRS_MB];
 pub const N_OPS: u64 = 12;
 
 /// Every string hashes to the same value.
@@ -23,8 +27,8 @@ pub type ConstBuild = BuildHasherDefault<ConstHasher>;
 pub type RandomBuild = std::collections::hash_map::RandomState;
 
 /// op = 2*string + (0: get_or_intern, 1: get)
-pub fn render(ops: &[u64]) -> String {
-    ops.iter().map(|o| format!("{}({:?})", if o % 2 == 0 { "get_or_intern" } else { "get" }, STRS[(o / 2) as usize])).collect::<Vec<_>>().join(" ")
+pub fn render(ops: &[u64], strs: &[&str; 6]) -> String {
+    ops.iter().map(|o| format!("{}({:?})", if o % 2 == 0 { "get_or_intern" } else { "get" }, strs[(o / 2) as usize])).collect::<Vec<_>>().join(" ")
 }
 
 /// The oracle: the strings interned so far, each with the key the interner handed out for it the
@@ -38,14 +42,14 @@ fn key_of(model: &Model, s: &str) -> Option<NonZeroU32> {
 }
 
 /// resolve of every issued key; get of every string.
-fn observe<S: BuildHasher>(it: &Interner<NonZeroU32, S>, model: &Model, when: &str) -> Result<(), Mismatch> {
+fn observe<S: BuildHasher>(it: &Interner<NonZeroU32, S>, model: &Model, strs: &[&str; 6], when: &str) -> Result<(), Mismatch> {
     for (m, k) in model.iter() {
         let got = it.resolve(*k);
         if got != Some(m.as_str()) {
             return Err(mismatch(format!("resolve({k}) = Some({m:?})"), format!("{got:?}"), format!("resolve of an issued key {when}")));
         }
     }
-    for s in STRS {
+    for s in strs.iter().copied() {
         let want = key_of(model, s);
         let got = it.get(s);
         if got != want {
@@ -83,24 +87,30 @@ fn record_incidentals<S: BuildHasher>(it: &Interner<NonZeroU32, S>, model: &Mode
     });
 }
 
-fn roundtrip<S: BuildHasher + Default>(it: Interner<NonZeroU32, S>) -> Result<Interner<NonZeroU32, S>, Mismatch> {
+/// Two deserialiser routes of the one format c20 can link (serde_json): text (borrowed strings,
+/// `visit_str`) and `serde_json::Value` (owned strings, `visit_string`).
+fn roundtrip<S: BuildHasher + Default>(it: Interner<NonZeroU32, S>, via_value: bool) -> Result<Interner<NonZeroU32, S>, Mismatch> {
+    if via_value {
+        let v = serde_json::to_value(&it).map_err(|e| mismatch("serialises", e.to_string(), "serde_json::to_value of the interner"))?;
+        return serde_json::from_value(v.clone()).map_err(|e| mismatch("deserialises", format!("{e} on {v}"), "serde_json::from_value of the serialised interner"));
+    }
     let text = serde_json::to_string(&it).map_err(|e| mismatch("serialises", e.to_string(), "serde_json::to_string of the interner"))?;
     serde_json::from_str(&text).map_err(|e| mismatch("deserialises", format!("{e} on {text}"), "serde_json::from_str of the serialised interner"))
 }
 
 /// One execution: the history `ops` with a serde round trip before op number `serde_at` (== len: at the end).
-pub fn check<S: BuildHasher + Default>(ops: &[u64], serde_at: Option<usize>, constant: bool, acc: &mut Acc) -> Result<(), Mismatch> {
+pub fn check<S: BuildHasher + Default>(ops: &[u64], strs: &[&str; 6], serde_at: Option<usize>, via_value: bool, constant: bool, acc: &mut Acc) -> Result<(), Mismatch> {
     let mut it: Interner<NonZeroU32, S> = Default::default();
     let mut model: Model = vec![];
     let mut deserialised = false;
-    observe(&it, &model, "on the empty interner")?;
+    observe(&it, &model, strs, "on the empty interner")?;
     for (i, op) in ops.iter().enumerate() {
         if serde_at == Some(i) {
-            it = roundtrip(it)?;
+            it = roundtrip(it, via_value)?;
             deserialised = true;
-            observe(&it, &model, &format!("after the serde round trip before step {i}"))?;
+            observe(&it, &model, strs, &format!("after the serde round trip before step {i}"))?;
         }
-        let s = STRS[(op / 2) as usize];
+        let s = strs[(op / 2) as usize];
         let known = key_of(&model, s);
         if constant && model.iter().filter(|m| m.0 != s).count() >= 2 {
             acc.count("interner_lookup_in_bucket_with_two_other_strings");
@@ -127,6 +137,12 @@ pub fn check<S: BuildHasher + Default>(ops: &[u64], serde_at: Option<usize>, con
                     if deserialised {
                         acc.count("interner_new_string_after_deserialise");
                     }
+                    if s.len() != s.chars().count() && !model.is_empty() {
+                        acc.count("interner_multibyte_string_interned_at_nonzero_offset");
+                    }
+                    if model.iter().any(|m| m.0.len() != m.0.chars().count()) {
+                        acc.count("interner_string_interned_after_a_multibyte_string");
+                    }
                     if let Some(other) = model.iter().find(|m| m.1 == got) {
                         return Err(mismatch(format!("get_or_intern({s:?}) = a key no other string has"), format!("{got}, the key of {:?}", other.0), format!("different strings get different keys (step {i})")));
                     }
@@ -139,11 +155,11 @@ pub fn check<S: BuildHasher + Default>(ops: &[u64], serde_at: Option<usize>, con
                 return Err(mismatch(format!("get({s:?}) = {known:?}"), format!("{got:?}"), format!("get at step {i}")));
             }
         }
-        observe(&it, &model, &format!("after step {i}"))?;
+        observe(&it, &model, strs, &format!("after step {i}"))?;
     }
     if serde_at == Some(ops.len()) {
-        it = roundtrip(it)?;
-        observe(&it, &model, "after the final serde round trip")?;
+        it = roundtrip(it, via_value)?;
+        observe(&it, &model, strs, "after the final serde round trip")?;
     }
     record_incidentals(&it, &model, acc);
     Ok(())
